@@ -2,8 +2,8 @@
    (iso_camt053/xmlnode.rs; quick-xml + serde are an oracle: the model starts from the structs).
    Only the fields `import` reads are kept.  The rewrite-rule extractor (import/extract.rs) is
    outside this model: its result for (entry, None) and for (entry, Some(detail)) is part of the
-   input (`en_frag`, `td_frag`); of a Fragment `import` reads payee, account and cleared only (the
-   Camt importer takes the code from Refs/AcctSvcrRef, not from the fragment).
+   input (`en_frag`, `td_frag`); of a Fragment `import` reads payee, account, cleared and code (since
+   /repo d2eb1b8 a code captured by a rule is booked, and wins over Refs/AcctSvcrRef).
    Written from the source, statement by statement.  Definitions only. *)
 From Coq Require Import List NArith ZArith Bool.
 From Okv Require Import Model.Lit Model.SingleEntry2.
@@ -16,7 +16,8 @@ Record charge_record := { cr_amount : xamount; cr_cd : cdind; cr_included : bool
 Record cexchange := { cx_src : str; cx_tgt : str; cx_rate : pdec }.  (* CcyXchg *)
 (* AmtDtls: only TxAmt is read *)
 Record amount_details := { ad_amount : xamount; ad_exchange : option cexchange }.
-Record fragment := { f_payee : option str; f_account : option str; f_cleared : bool }.
+Record fragment := { f_payee : option str; f_account : option str; f_cleared : bool;
+                      f_code : option str }.
 Record detail := {                                                   (* NtryDtls/TxDtls *)
   td_ref : option str;                                               (* Refs/AcctSvcrRef *)
   td_amount : xamount; td_cd : cdind;
@@ -101,15 +102,21 @@ Definition base_txn (e : entry) (f : fragment) (amount : oamount) (code : option
   let t := set_dest t (f_account f) in
   if negb (f_cleared f) then set_clear t Pending else t.
 
+(* the code of a record: `.code_option(fragment.code)` for an entry without TxDtls,
+   `fragment.code.or(transaction.refs.account_servicer_reference)` for a TxDtls *)
+Definition entry_code (e : entry) : option str := f_code (en_frag e).
+Definition detail_code (d : detail) : option str :=
+  match f_code (td_frag d) with Some c => Some c | None => td_ref d end.
+
 (* `if entry.details.transactions.is_empty() { .. }` *)
 Definition entry_txn (cfg : config) (e : entry) : txn + ierr :=
   let amount := to_data (en_amount e) (en_cd e) in
-  add_charges (base_txn e (en_frag e) amount None) cfg (en_charges e).
+  add_charges (base_txn e (en_frag e) amount (Some (entry_code e))) cfg (en_charges e).
 
 (* body of `for transaction in &entry.details.transactions` *)
 Definition detail_txn (cfg : config) (e : entry) (d : detail) : txn + ierr :=
   let amount := to_data (td_amount d) (td_cd d) in
-  let t := base_txn e (td_frag d) amount (Some (td_ref d)) in
+  let t := base_txn e (td_frag d) amount (Some (detail_code d)) in
   let r :=
     match td_details d with
     | Some ad =>
